@@ -63,6 +63,11 @@ def gen(rng, tier, entry=None):
                 "feature": "part"}
     if entry in ("parts", "pathspec"):
         p = c10.rand_path(rng, doc, 4)
+        if rng.random() < 0.3:
+            # a primitive part whose equal-looking twins of another type (1 / 1.0 / True / "1") occur elsewhere
+            tw = rng.choice([1, 1.0, True, "1", 0, 0.0, False, "0", 2, 2.0])
+            p = dict(p, parts=[{"p": "prim", "v": tw}] + list(p["parts"]))
+            p["multi"] = None
         if entry == "pathspec":
             conc = M.is_concrete(p)
             p = dict(p, datum=rng.choice([None, "length", "dtype"]), multi=None if conc else rng.choice([None, "first", "all"]))
@@ -198,6 +203,17 @@ def run(case, ctx):
     elif entry in ("parts", "pathspec"):
         if c10.sel_fp(first, doc) != c10.sel_fp(last, doc):
             ctx.violate(f"C16/{entry}/reparse-behaviour", f"first and last parse select differently; spec {before!r}")
+        # every parse means what the spec says (whatever was parsed earlier in this process)
+        for probe in (doc, PC.ZOO_LIST, PC.ZOO_DOC):
+            try:
+                exp = M.expected_get(case["path"], probe, True)
+            except (M.Undefined, M.SingleViolation):
+                continue
+            for which, o in (("first", first), ("last", last)):
+                okg, got = call(o.get_data, probe, True)
+                if okg and canon(got) != canon(exp):
+                    ctx.violate(f"C16/{entry}/parse-vs-model", f"{which} parse of {before!r} selects {got!r} on a probe, the spec means {exp!r}")
+                    break
     for name, detail in mon.CONTRACTS.take():
         ctx.violate(f"C16/contract:{name}", detail)
     ctx.count("entry:" + entry)
